@@ -50,6 +50,12 @@ const REFACTOR_RULES: &[&str] = &[
     "convert_square_root_call",
 ];
 
+fn unhex(s: &str) -> Vec<u8> {
+    (0..s.len() / 2)
+        .filter_map(|i| u8::from_str_radix(&s[2 * i..2 * i + 2], 16).ok())
+        .collect()
+}
+
 fn one_line(message: impl ToString) -> String {
     message.to_string().replace(['\n', '\r', '\t'], " ")
 }
@@ -232,6 +238,33 @@ fn main() {
                     e2e,
                     reference
                 );
+            }
+        }
+        "apply-batch" => {
+            // stdin: one case per line `<rules json>\t<generator json>\t<source hex>`;
+            // stdout: `<IN term>\t<OUT term>\t<E2E term>\t<E2E text hex or ->`
+            use std::io::BufRead;
+            let stdin = std::io::stdin();
+            for line in stdin.lock().lines() {
+                let line = line.expect("stdin");
+                let parts: Vec<&str> = line.split('\t').collect();
+                if parts.len() != 3 {
+                    continue;
+                }
+                let rules_json = parts[0];
+                let generator = parts[1];
+                let source = String::from_utf8(unhex(parts[2])).unwrap_or_default();
+                let input = term_of(parse(&source));
+                let out_ast = term_of(apply_to_ast(&source, rules_json));
+                let e2e_text = end_to_end(&source, rules_json, generator);
+                let (e2e, text_hex) = match &e2e_text {
+                    Ok(text) => (
+                        term_of(parse(text).map_err(|e| format!("output does not parse ({}): {}", e, text))),
+                        hex(text.as_bytes()),
+                    ),
+                    Err(e) => (format!("ERR:{}", one_line(e)), "-".to_owned()),
+                };
+                println!("{}\t{}\t{}\t{}", input, out_ast, e2e, text_hex);
             }
         }
         "show" => {
